@@ -110,6 +110,15 @@ func (c *ExecuteCtx) Clear() {
 	clear(c.FieldChunkKeyCaches)
 }
 
+// ClearFieldCache drops the per-row field results, it should be called
+// before evaluating expressions on another key-value pair
+func (c *ExecuteCtx) ClearFieldCache() {
+	if !c.EnableCache {
+		return
+	}
+	clear(c.FieldCaches)
+}
+
 func (c *ExecuteCtx) AdjustChunkCache(chooseIdxes []int) {
 	if !c.EnableCache {
 		return
